@@ -171,6 +171,9 @@ class FunctionEffects:
             # containers hand out their elements; matrices hand out copies
             return self._elements(base)
         if isinstance(e, ast.Attribute):
+            if isinstance(e.value, ast.Name) and e.value.id in self._imported_names():
+                # a module-level object of another module (glpk.options, msk.options): shared state
+                return {"<module state %s.%s>" % (e.value.id, e.attr)}
             if getattr(self, "deep_attrs", False) and e.attr not in ("size", "typecode", "name", "T", "H"):
                 return self.expr_alias(e.value, scope)
             return set()
@@ -231,6 +234,23 @@ class FunctionEffects:
                 return set()
             return set()
         return set()           # arithmetic, unary +/-, comparisons, constants: fresh
+
+    def _imported_names(self):
+        if not hasattr(self, "_imp"):
+            imp = set()
+            for n in ast.walk(self.fn):
+                if isinstance(n, (ast.Import, ast.ImportFrom)):
+                    for a in n.names:
+                        imp.add((a.asname or a.name).split(".")[0])
+            tree = getattr(self.mod, "tree", None)
+            if tree is not None:
+                for n in tree.body:
+                    if isinstance(n, (ast.Import, ast.ImportFrom)):
+                        for a in n.names:
+                            imp.add((a.asname or a.name).split(".")[0])
+            # only modules whose attributes are plain data shared between calls matter; kernels are called, not written
+            self._imp = {x for x in imp if x in ("glpk", "msk", "mosek", "dsdp", "solvers", "cvxopt")}
+        return self._imp
 
     def _elements(self, base):
         """what indexing / iterating an object with alias set `base` hands out"""
@@ -439,12 +459,12 @@ class FunctionEffects:
                         al = al | {r[len(ELEM):] for r in al if r.startswith(ELEM)}   # a callee may write the elements
                     # writing into an element of a container root: x in `dims['q'].append` handled by expr_alias
                     if isinstance(tgt, ast.Subscript) or isinstance(tgt, ast.Name) or True:
-                        hit = al & roots
+                        hit = (al & roots) | {r for r in al if r.startswith("<module state")}
                         if hit:
                             rf = self._refine(tgt, n, s)
                             if callw:
                                 rf = rf | {r[len(ELEM):] for r in rf if r.startswith(ELEM)}
-                            hit = rf & roots
+                            hit = (rf & roots) | {r for r in rf if r.startswith("<module state")}
                         # a Subscript target of a *matrix* root is a copy -> no alias (expr_alias handles)
                         # but `X[...] = v` where X is the root itself must count:
                         for r in hit:
